@@ -294,6 +294,8 @@ def small_values(desc, rng, bound):
         return [False, True]
     if desc == 'val':
         return [{'f': float(x).hex()} for x in (0.0, 1.0, -1.5, 2.25)]
+    if desc == 'val+':
+        return [{'f': float(x).hex()} for x in (0.3, 0.75, 1.0, 1.5, 2.0, 2.6, 3.2, 4.5, 6.0, 9.0)]
     if desc == 'block':
         out = []
         for rb, re, cb, ce in itertools.product(range(0, bound + 1), repeat=4):
